@@ -132,7 +132,7 @@ package keeper
 //@ ensures complete: ctxFound(raw, requestContextID) && addrEq(consumer, ctxOf(raw, requestContextID).Consumer) && (!checkModule || len(ctxOf(raw, requestContextID).ModuleName) == 0) ==> err == NoErr
 
 //@ func (Keeper).PauseRequestContext
-//@ preserves [C02,C16,C11] pending_requests_stay_well_formed: actInv(raw)
+//@ preserves [C01,C02,C16,C11] pending_requests_stay_well_formed: actInv(raw)
 //@ props C09 C05
 //@ modifies raw
 //@ ensures [C09] only_repeated_running: err == NoErr ==> (let c := ctxOf(old(raw), requestContextID) in ctxFound(old(raw), requestContextID) && c.Repeated && c.State == RUNNING)
@@ -141,8 +141,8 @@ package keeper
 //@ ensures error_changes_nothing: err != NoErr ==> raw == old(raw)
 
 //@ func (Keeper).StartRequestContext
-//@ preserves [C02,C16,C11] pending_requests_stay_well_formed: actInv(raw)
-//@ props C09 C05 C10 C11
+//@ preserves [C01,C02,C16,C11] pending_requests_stay_well_formed: actInv(raw)
+//@ props C09 C05 C10 C11 C16 C08 C04 C02 C01
 //@ modifies raw
 //@ ensures [C09] only_paused: err == NoErr ==> ctxFound(old(raw), requestContextID) && ctxOf(old(raw), requestContextID).State == PAUSED
 //@ ensures [C05] module_context_needs_consumer: err == NoErr ==> (let c := ctxOf(old(raw), requestContextID) in len(c.ModuleName) > 0 ==> addrEq(consumer, c.Consumer))
@@ -153,7 +153,7 @@ package keeper
 //@ ensures error_changes_nothing: err != NoErr ==> raw == old(raw)
 
 //@ func (Keeper).KillRequestContext
-//@ preserves [C02,C16,C11] pending_requests_stay_well_formed: actInv(raw)
+//@ preserves [C01,C02,C16,C11] pending_requests_stay_well_formed: actInv(raw)
 //@ props C09 C05
 //@ modifies raw
 //@ ensures [C09] only_repeated: err == NoErr ==> ctxFound(old(raw), requestContextID) && ctxOf(old(raw), requestContextID).Repeated
@@ -162,7 +162,7 @@ package keeper
 //@ ensures error_changes_nothing: err != NoErr ==> raw == old(raw)
 
 //@ func (Keeper).UpdateRequestContext
-//@ preserves [C02,C16,C11] pending_requests_stay_well_formed: actInv(raw)
+//@ preserves [C01,C02,C16,C11] pending_requests_stay_well_formed: actInv(raw)
 //@ props C09 C05 C10
 //@ modifies raw
 //@ requires [C09] stored_context_in_range: ctxFound(raw, requestContextID) ==> rng_RequestContext(ctxOf(raw, requestContextID))
